@@ -139,6 +139,39 @@ def rule_c(ctx):
     rep.add('C11.c', 'StreamControl.stop_all_streams / dispatch on Requester and Disposable', f, ok,
             'the loop fails Requesters and disposes Disposables' if ok else
             'the loop no longer tests for both interfaces (%s)' % sorted(t.name for t in tests))
+    # per handler class (the loop variable bound to an instance of it): a Requester receives the synthetic ERROR,
+    # a Disposable is disposed - a class that is both gets both
+    from ..interp import AVal as _AVal
+
+    for h in m.handlers:
+        def bind(node, st, itv, h=h):
+            names = [x.id for x in ast.walk(node.target) if isinstance(x, ast.Name)]
+            if len(names) == 2:
+                return [{names[1]: _AVal(('stream', h.name), [h], exact=True)}]
+            return None
+        ps = ctx.paths(f, slots.StreamControl, loop_bind=bind, no_inline={'frame_received', 'dispose'})
+        its = [p for p in ps if any(e.kind == 'loop' and e.data.get('phase') == 'enter' for e in p.events) and
+               p.outcome == 'return']
+        if not its:
+            raise AnalysisError('C11.c: no loop iteration in stop_all_streams')
+        want_fail = h.is_subclass_of(slots.Requester)
+        want_dispose = h.is_subclass_of(slots.Disposable)
+        ok = True
+        for p in its:
+            failed = any(e.kind == 'call' and e.data.get('name') == 'frame_received' and e.data.get('args') and
+                         e.data['args'][0].types and next(iter(e.data['args'][0].types)).name == 'ErrorFrame'
+                         for e in p.events)
+            disposed = any(e.kind == 'call' and e.data.get('name') == 'dispose' for e in p.events)
+            if failed != want_fail or disposed != want_dispose:
+                ok = False
+        rep.add('C11.c', 'StreamControl.stop_all_streams / %s failed and disposed as its interfaces require' % h.name,
+                f, ok,
+                '%s%s' % ('receives the synthetic ERROR' if want_fail else 'is not a requester',
+                          ', is disposed' if want_dispose else '') if ok else
+                'an instance of %s (%s) is not %s on every iteration path' % (
+                    h.name, '+'.join(x for x, w in (('Requester', want_fail), ('Disposable', want_dispose)) if w),
+                    ' and '.join(x for x, w in (('failed with the synthetic ERROR', want_fail),
+                                                ('disposed', want_dispose)) if w)))
     # requesters are failed through frame_received(ErrorFrame); responders' dispose() cancels the producer
     for h in m.handlers:
         if h.is_subclass_of(slots.Disposable):
